@@ -124,8 +124,9 @@ class Obligation:
             # the negated post-condition simplifies to false (e.g. both sides are the same term): unsat without a solver call
             self.queries += 1; self.unsat += 1; self.trivial = getattr(self, 'trivial', 0) + 1
             return None
-        s = ex.solver(); s.add(*conds); s.add(negated_post)
-        t = time.time(); r = s.check(); dt = time.time() - t
+        q0, t0 = ex.queries, ex.solver_time
+        r, s = ex.quick_check(list(conds) + [negated_post]); dt = ex.solver_time - t0
+        ex.queries, ex.solver_time = q0, t0          # accounted here, not as an executor feasibility query
         self.solver_s += dt; self.queries += 1
         if dt > 5: log(f'  slow VC in {self.name}: {dt:.1f}s -> {r}')
         if r == z3.unknown:
